@@ -32,24 +32,33 @@ type interpMethod struct {
 	// repro returns the highest monomial degree reproduced exactly; guard reports whether
 	// degree repro+1 is known not to be reproduced (vacuity guard).
 	repro func(n int, uniform bool) (deg int, guard bool)
-	fit   func(xs, ys []float64) (fitted, error)
+	// newFit returns a fitting function bound to ONE predictor object, so that consecutive calls
+	// refit the same object (stale state of an earlier, larger fit must not leak).
+	newFit func() func(xs, ys []float64) (fitted, error)
 }
+
+// fit fits a fresh predictor object.
+func (me interpMethod) fit(xs, ys []float64) (fitted, error) { return me.newFit()(xs, ys) }
 
 func dp(p interp.DerivativePredictor) fitted { return fitted{P: p.Predict, D: p.PredictDerivative} }
 
 func interpMethods() []interpMethod {
 	return []interpMethod{
 		{"PiecewiseConstant", 2, -1, false, func(int, bool) (int, bool) { return 0, true },
-			func(xs, ys []float64) (fitted, error) {
-				var p interp.PiecewiseConstant
-				err := p.Fit(xs, ys)
-				return fitted{P: p.Predict}, err
+			func() func(xs, ys []float64) (fitted, error) {
+				p := new(interp.PiecewiseConstant)
+				return func(xs, ys []float64) (fitted, error) {
+					err := p.Fit(xs, ys)
+					return fitted{P: p.Predict}, err
+				}
 			}},
 		{"PiecewiseLinear", 2, 0, false, func(int, bool) (int, bool) { return 1, true },
-			func(xs, ys []float64) (fitted, error) {
-				var p interp.PiecewiseLinear
-				err := p.Fit(xs, ys)
-				return fitted{P: p.Predict}, err
+			func() func(xs, ys []float64) (fitted, error) {
+				p := new(interp.PiecewiseLinear)
+				return func(xs, ys []float64) (fitted, error) {
+					err := p.Fit(xs, ys)
+					return fitted{P: p.Predict}, err
+				}
 			}},
 		{"AkimaSpline", 2, 1, false, func(n int, uniform bool) (int, bool) {
 			if uniform && n >= 3 {
@@ -57,28 +66,36 @@ func interpMethods() []interpMethod {
 			}
 			return 1, false
 		},
-			func(xs, ys []float64) (fitted, error) {
-				var p interp.AkimaSpline
-				err := p.Fit(xs, ys)
-				return dp(&p), err
+			func() func(xs, ys []float64) (fitted, error) {
+				p := new(interp.AkimaSpline)
+				return func(xs, ys []float64) (fitted, error) {
+					err := p.Fit(xs, ys)
+					return dp(p), err
+				}
 			}},
 		{"FritschButland", 2, 1, true, func(int, bool) (int, bool) { return 1, false },
-			func(xs, ys []float64) (fitted, error) {
-				var p interp.FritschButland
-				err := p.Fit(xs, ys)
-				return dp(&p), err
+			func() func(xs, ys []float64) (fitted, error) {
+				p := new(interp.FritschButland)
+				return func(xs, ys []float64) (fitted, error) {
+					err := p.Fit(xs, ys)
+					return dp(p), err
+				}
 			}},
 		{"NaturalCubic", 2, 2, false, func(n int, _ bool) (int, bool) { return 1, n >= 3 },
-			func(xs, ys []float64) (fitted, error) {
-				var p interp.NaturalCubic
-				err := p.Fit(xs, ys)
-				return dp(&p), err
+			func() func(xs, ys []float64) (fitted, error) {
+				p := new(interp.NaturalCubic)
+				return func(xs, ys []float64) (fitted, error) {
+					err := p.Fit(xs, ys)
+					return dp(p), err
+				}
 			}},
 		{"ClampedCubic", 2, 2, false, func(int, bool) (int, bool) { return 0, true },
-			func(xs, ys []float64) (fitted, error) {
-				var p interp.ClampedCubic
-				err := p.Fit(xs, ys)
-				return dp(&p), err
+			func() func(xs, ys []float64) (fitted, error) {
+				p := new(interp.ClampedCubic)
+				return func(xs, ys []float64) (fitted, error) {
+					err := p.Fit(xs, ys)
+					return dp(p), err
+				}
 			}},
 		{"NotAKnotCubic", 3, 2, false, func(n int, _ bool) (int, bool) {
 			if n == 3 {
@@ -88,20 +105,25 @@ func interpMethods() []interpMethod {
 			}
 			return 3, n >= 5
 		},
-			func(xs, ys []float64) (fitted, error) {
-				var p interp.NotAKnotCubic
-				err := p.Fit(xs, ys)
-				return dp(&p), err
+			func() func(xs, ys []float64) (fitted, error) {
+				p := new(interp.NotAKnotCubic)
+				return func(xs, ys []float64) (fitted, error) {
+					err := p.Fit(xs, ys)
+					return dp(p), err
+				}
 			}},
 	}
 }
 
 // ---- knot sets ----
 
-var knotSpacings = []float64{1, 0.5, 3}
-var knotSpacingNames = []string{"1", "h", "3"}
+// Two knot spacing alphabets: {1,1/2,3} and the clustered {1,1/64,8}.
+var knotAlphabets = []spacingSet{
+	{"A", []float64{1, 0.5, 3}, []string{"1", "h", "3"}},
+	{"B", []float64{1, 1. / 64, 8}, []string{"1", "c", "8"}},
+}
 
-func knotsFromCode(code, m int) (xs []float64, name string, uniform bool) {
+func knotsFromCode(ss spacingSet, code, m int) (xs []float64, name string, uniform bool) {
 	xs = make([]float64, m+1)
 	xs[0] = -2
 	var sb strings.Builder
@@ -115,16 +137,21 @@ func knotsFromCode(code, m int) (xs []float64, name string, uniform bool) {
 		} else if s != first {
 			uniform = false
 		}
-		xs[i+1] = xs[i] + knotSpacings[s]
-		sb.WriteString(knotSpacingNames[s])
+		xs[i+1] = xs[i] + ss.h[s]
+		sb.WriteString(ss.names[s])
 	}
 	return xs, sb.String(), uniform
 }
 
-// longKnots returns n knots following one of three spacing patterns.
+const longPatterns = 6
+
+// longKnots returns n knots following one of six spacing patterns: uniform 1/2; alternating 1/2, 3;
+// the cycle 1, 1/2, 3; the clustered cycle 1, 1/64, 8; dyadic clusters 2^-(i mod 8); a fixed
+// pseudo-random word over {1, 1/2, 3, 1/64, 8}.
 func longKnots(n, pattern int) (xs []float64, uniform bool) {
 	xs = make([]float64, n)
 	xs[0] = -2
+	lcg := uint32(12345)
 	for i := 1; i < n; i++ {
 		var s float64
 		switch pattern {
@@ -132,8 +159,15 @@ func longKnots(n, pattern int) (xs []float64, uniform bool) {
 			s = 0.5
 		case 1:
 			s = []float64{0.5, 3}[i%2]
+		case 2:
+			s = []float64{1, 0.5, 3}[i%3]
+		case 3:
+			s = []float64{1, 1. / 64, 8}[i%3]
+		case 4:
+			s = 1 / float64(int(1)<<uint(i%8))
 		default:
-			s = knotSpacings[i%3]
+			lcg = lcg*1664525 + 1013904223
+			s = []float64{1, 0.5, 3, 1. / 64, 8}[(lcg>>16)%5]
 		}
 		xs[i] = xs[i-1] + s
 	}
@@ -196,30 +230,46 @@ func dataScales(xs, ys []float64) scales {
 }
 
 func genInterp(g *vlib.G) {
-	methods := interpMethods()
-	// All knot sets of length 2..6 over the spacing alphabet.
-	for m := 1; m <= vlib.Pick(g, 7, 9); m++ {
-		for code := 0; code < pow3(m); code++ {
-			xs, name, uniform := knotsFromCode(code, m)
-			for _, me := range methods {
-				xs, uniform, me := xs, uniform, me
-				g.Case(fmt.Sprintf("%s knots=%s", me.name, name), func(t *vlib.T) { interpCase(t, me, xs, uniform) })
+	// All knot words up to the tier's length over both spacing alphabets; one case = one knot set,
+	// run through every interpolator and FitWithDerivatives.
+	for ai, ss := range knotAlphabets {
+		maxM := vlib.Pick(g, 10, 12)
+		if ai == 1 {
+			maxM = vlib.Pick(g, 9, 11)
+		}
+		for m := 1; m <= maxM; m++ {
+			for code := 0; code < pow3(m); code++ {
+				ss, m, code := ss, m, code
+				_, name, _ := knotsFromCode(ss, code, m)
+				g.Case("knots "+ss.name+" "+name, func(t *vlib.T) {
+					xs, _, uniform := knotsFromCode(ss, code, m)
+					knotSetCase(t, xs, uniform, ss.name)
+				})
 			}
-			g.Case(fmt.Sprintf("FitWithDerivatives knots=%s", name), func(t *vlib.T) { fitWithDerivativesCase(t, xs) })
 		}
 	}
-	// Long knot sets.
-	lengths := vlib.Pick(g, []int{7, 8, 9, 10, 16, 31, 32, 33, 64, 99, 100}, vlib.Ints(7, 100))
-	for _, n := range lengths {
-		for pattern := 0; pattern < 3; pattern++ {
-			xs, uniform := longKnots(n, pattern)
-			for _, me := range methods {
-				xs, uniform, me := xs, uniform, me
-				g.Case(fmt.Sprintf("%s n=%d pattern=%d", me.name, n, pattern), func(t *vlib.T) { interpCase(t, me, xs, uniform) })
-			}
-			g.Case(fmt.Sprintf("FitWithDerivatives n=%d pattern=%d", n, pattern), func(t *vlib.T) { fitWithDerivativesCase(t, xs) })
+	// Long knot sets: every length 2..100 on six spacing patterns.
+	for n := 2; n <= 100; n++ {
+		for pattern := 0; pattern < longPatterns; pattern++ {
+			n, pattern := n, pattern
+			g.Case(fmt.Sprintf("long n=%d pattern=%d", n, pattern), func(t *vlib.T) {
+				xs, uniform := longKnots(n, pattern)
+				knotSetCase(t, xs, uniform, fmt.Sprintf("pattern%d", pattern))
+			})
 		}
 	}
+}
+
+func knotSetCase(t *vlib.T, xs []float64, uniform bool, family string) {
+	t.Nontrivial()
+	t.Outcome(fmt.Sprintf("%s n=%d uniform=%v", family, min(len(xs), 8), uniform))
+	for _, me := range interpMethods() {
+		interpCase(t, me, xs, uniform)
+		if t.Failed() {
+			return
+		}
+	}
+	fitWithDerivativesCase(t, xs)
 }
 
 func monomialData(xs []float64, d int) []float64 {
@@ -232,8 +282,6 @@ func monomialData(xs []float64, d int) []float64 {
 
 func interpCase(t *vlib.T, me interpMethod, xs []float64, uniform bool) {
 	n := len(xs)
-	t.Nontrivial()
-	t.Outcome(fmt.Sprintf("%s n=%d uniform=%v", me.name, min(n, 7), uniform))
 	if n < me.minN {
 		if _, p := catch(func() { me.fit(xs, make([]float64, n)) }); !p {
 			t.Failf("%s.Fit with %d points did not panic (documented minimum %d)", me.name, n, me.minN)
@@ -256,13 +304,34 @@ func interpCase(t *vlib.T, me interpMethod, xs []float64, uniform bool) {
 		sets = append(sets, dataSet{"clamped-cubic", ys, -2})
 	}
 	sets = append(sets, intSequences(n)...)
-	for _, ds := range sets {
-		f, err := fitOrReport(t, me, xs, ds)
-		if err != nil && me.name == "NotAKnotCubic" && n == 3 {
-			return // known finding, reported once per knot set
-		}
-		if err != nil || t.Failed() {
+	// One predictor object is refitted for all data sets of the case, after a first fit on a
+	// longer knot set: state of an earlier fit must not leak into a later one.
+	refit := me.newFit()
+	prime, _ := longKnots(n+3, 2)
+	if _, err := refit(prime, monomialData(prime, 2)); err != nil {
+		t.Failf("%s.Fit(%v, x^2) returned error %v", me.name, prime, err)
+		return
+	}
+	for k, ds := range sets {
+		f, err := refit(xs, ds.ys)
+		if err != nil {
+			t.Failf("%s.Fit(%v, %s) returned error %v", me.name, xs, ds.name, err)
 			continue
+		}
+		if k == len(sets)-4 {
+			// The refitted object must predict exactly like a freshly fitted one.
+			fresh, _ := me.fit(xs, ds.ys)
+			for i := 0; i+1 < n; i++ {
+				for _, fr := range gridFractions {
+					x := xs[i] + fr*(xs[i+1]-xs[i])
+					if a, b := f.P(x), fresh.P(x); !sameBits(a, b) {
+						t.Failf("%s %s: Predict(%v) of a refitted object = %v, of a fresh one %v", me.name, ds.name, x, a, b)
+					}
+				}
+			}
+		}
+		if t.Failed() {
+			return
 		}
 		sc := dataScales(xs, ds.ys)
 		checkKnotValues(t, me, f, xs, ds)
@@ -289,18 +358,6 @@ func interpCase(t *vlib.T, me interpMethod, xs []float64, uniform bool) {
 		}
 		t.Count("fits", 1)
 	}
-}
-
-func fitOrReport(t *vlib.T, me interpMethod, xs []float64, ds dataSet) (fitted, error) {
-	f, err := me.fit(xs, ds.ys)
-	if err != nil {
-		if me.name == "NotAKnotCubic" && len(xs) == 3 {
-			t.SubViolation("fit "+ds.name, "notaknot-three-points-singular", nil, "NotAKnotCubic.Fit with 3 points (documented minimum) returns %q for xs=%v ys=%v", err, xs, ds.ys)
-		} else {
-			t.Failf("%s.Fit(%v, %s) returned error %v", me.name, xs, ds.name, err)
-		}
-	}
-	return f, err
 }
 
 func checkKnotValues(t *vlib.T, me interpMethod, f fitted, xs []float64, ds dataSet) {
@@ -513,16 +570,14 @@ func checkMonotone(t *vlib.T, me interpMethod, f fitted, xs []float64, ds dataSe
 
 func fitWithDerivativesCase(t *vlib.T, xs []float64) {
 	n := len(xs)
-	t.Nontrivial()
-	t.Outcome(fmt.Sprintf("FitWithDerivatives n=%d", min(n, 7)))
 	me := interpMethod{name: "PiecewiseCubic.FitWithDerivatives", smooth: 1}
+	var pc interp.PiecewiseCubic // refitted for every data set
 	for d := 0; d <= 4; d++ {
 		ys := monomialData(xs, d)
 		dys := make([]float64, n)
 		for i, x := range xs {
 			dys[i] = monomialDeriv(x, d, 1)
 		}
-		var pc interp.PiecewiseCubic
 		pc.FitWithDerivatives(xs, ys, dys)
 		f := dp(&pc)
 		ds := dataSet{fmt.Sprintf("x^%d", d), ys, d}
@@ -549,7 +604,6 @@ func fitWithDerivativesCase(t *vlib.T, xs []float64) {
 		for i := range dys {
 			dys[i] = float64((i*7)%5 - 2)
 		}
-		var pc interp.PiecewiseCubic
 		pc.FitWithDerivatives(xs, seq.ys, dys)
 		f := dp(&pc)
 		sc := dataScales(xs, seq.ys)
@@ -566,47 +620,77 @@ func fitWithDerivativesCase(t *vlib.T, xs []float64) {
 	}
 }
 
-// ---- monotone interpolation over all short integer sequences ----
+// ---- every interpolator over all short integer sequences ----
 
-func genInterpMonotone(g *vlib.G) {
-	me := interpMethods()[3]
-	maxM := vlib.Pick(g, 5, 6)
-	for m := 2; m <= maxM; m++ {
-		for code := 0; code < pow3(m); code++ {
-			xs, name, _ := knotsFromCode(code, m)
-			g.Case(fmt.Sprintf("FritschButland knots=%s all y in {0,1,3}^%d", name, m+1), func(t *vlib.T) {
-				t.Nontrivial()
-				n := len(xs)
-				vals := []float64{0, 1, 3}
-				ys := make([]float64, n)
-				radices := make([]int, n)
-				for i := range radices {
-					radices[i] = 3
+// genInterpAllY: one case = (method, knot set); every y in {0,1,3}^n is fitted (refitting one
+// object) and checked for exact knot values, the smoothness class, the boundary conditions,
+// Predict/PredictDerivative consistency and, for FritschButland, monotonicity.
+func genInterpAllY(g *vlib.G) {
+	for ai, ss := range knotAlphabets {
+		maxM := vlib.Pick(g, 6, 7)
+		if ai == 1 {
+			maxM = vlib.Pick(g, 5, 6)
+		}
+		for m := 1; m <= maxM; m++ {
+			for code := 0; code < pow3(m); code++ {
+				_, name, _ := knotsFromCode(ss, code, m)
+				for _, me := range interpMethods() {
+					if m+1 < me.minN {
+						continue
+					}
+					ss, m, code, me := ss, m, code, me
+					g.Case(me.name+" "+ss.name+" "+name, func(t *vlib.T) {
+						xs, _, _ := knotsFromCode(ss, code, m)
+						allYCase(t, me, xs)
+					})
 				}
-				vlib.Product(radices, func(idx []int) bool {
-					if t.Failed() {
-						return false
-					}
-					for i, k := range idx {
-						ys[i] = vals[k]
-					}
-					ds := dataSet{fmt.Sprintf("y=%v", ys), ys, -1}
-					f, err := me.fit(xs, ys)
-					if err != nil {
-						t.Failf("Fit error %v", err)
-						return false
-					}
-					sc := dataScales(xs, ys)
-					checkKnotValues(t, me, f, xs, ds)
-					checkMonotone(t, me, f, xs, ds, sc)
-					checkSmoothness(t, me, f, xs, ds, sc)
-					t.Count("fits", 1)
-					return true
-				})
-				t.Outcome(fmt.Sprintf("n=%d", n))
-			})
+			}
 		}
 	}
+}
+
+func allYCase(t *vlib.T, me interpMethod, xs []float64) {
+	t.Nontrivial()
+	n := len(xs)
+	t.Outcome(fmt.Sprintf("%s n=%d", me.name, n))
+	vals := []float64{0, 1, 3}
+	ys := make([]float64, n)
+	radices := make([]int, n)
+	for i := range radices {
+		radices[i] = 3
+	}
+	refit := me.newFit()
+	ds := dataSet{"y in {0,1,3}^n", ys, -1}
+	first := true
+	vlib.Product(radices, func(idx []int) bool {
+		for i, k := range idx {
+			ys[i] = vals[k]
+		}
+		f, err := refit(xs, ys)
+		if err != nil {
+			t.Failf("%s.Fit(%v, %v) returned error %v", me.name, xs, ys, err)
+			return false
+		}
+		sc := dataScales(xs, ys)
+		checkKnotValues(t, me, f, xs, ds)
+		checkSmoothness(t, me, f, xs, ds, sc)
+		if f.D != nil {
+			checkDerivativeConsistency(t, me, f, xs, ds, sc)
+		}
+		if me.monotone {
+			checkMonotone(t, me, f, xs, ds, sc)
+		}
+		if first {
+			checkExtrapolation(t, me, f, xs, ds)
+			first = false
+		}
+		t.Count("fits", 1)
+		if t.Failed() {
+			t.Failf("(data of the failing fit: xs=%v ys=%v)", xs, ys)
+			return false
+		}
+		return true
+	})
 }
 
 // ---- invalid input ----
@@ -614,10 +698,12 @@ func genInterpMonotone(g *vlib.G) {
 func genInterpBadInput(g *vlib.G) {
 	methods := interpMethods()
 	methods = append(methods, interpMethod{name: "PiecewiseCubic.FitWithDerivatives", minN: 2,
-		fit: func(xs, ys []float64) (fitted, error) {
-			var p interp.PiecewiseCubic
-			p.FitWithDerivatives(xs, ys, make([]float64, len(xs)))
-			return dp(&p), nil
+		newFit: func() func(xs, ys []float64) (fitted, error) {
+			p := new(interp.PiecewiseCubic)
+			return func(xs, ys []float64) (fitted, error) {
+				p.FitWithDerivatives(xs, ys, make([]float64, len(xs)))
+				return dp(p), nil
+			}
 		}})
 	for _, me := range methods {
 		me := me
